@@ -54,7 +54,7 @@ func (e *Engine) Boot(roots []*ssa.Package) (*State, error) {
 	main.Frames = nil
 	main.Panic = nil
 	st.Steps = 0
-	e.Funcs = map[string]int64{}
+	e.fnCount = map[*ssa.Function]int64{}
 	e.Stubs = map[string]int64{}
 	e.boot = st
 	return st, nil
